@@ -129,7 +129,8 @@ def make_param_index(all_params):
         vc.assume(z3.And(a >= 0, a < num_s, b >= 0, b < num_out))
         vc.it.ctx.note_trusted("lemma pos_closed (Lean-checked): the append position of block b, state a is b*num_s + a")
         vc.assume(z3.And(POS(b, a) == a + b * num_s, POS(num_out, 0) == num_s * num_out))      # instances of the lemma
-        vc.ensure('one column index per (named state, free parameter)', isinstance(r, SMutList) and to_num(r.length) == num_s * num_out)
+        vc.binds(isinstance(r, SMutList), 'the column indices are returned as a python list')
+        vc.ensure('one column index per (named state, free parameter)', to_num(r.length) == num_s * num_out)
         vc.ensure('index[a + b*num_s] = ix(state_name[a]) + (pidx(b)+1)*nS: states in the order NAMED, parameters in the order SUPPLIED',
                   z3.Select(r.arr, a + b * num_s) == six(a) + (pidx(b) + 1) * nS)
         vc.canary('canary: reachable', z3.BoolVal(False))
@@ -185,7 +186,8 @@ def make_state_index(all_states):
         vc.assume(z3.And(a >= 0, a < num_s, c >= 0, c < num_out))
         vc.it.ctx.note_trusted("lemma pos_closed (Lean-checked): the append position of block b, state a is b*num_s + a")
         vc.assume(z3.And(POS(c, a) == a + c * num_s, POS(num_out, 0) == num_s * num_out))      # instances of the lemma
-        vc.ensure('one column index per (named state, free initial value)', isinstance(r, SMutList) and to_num(r.length) == num_s * num_out)
+        vc.binds(isinstance(r, SMutList), 'the column indices are returned as a python list')
+        vc.ensure('one column index per (named state, free initial value)', to_num(r.length) == num_s * num_out)
         vc.ensure('index[a + c*num_s] = ix(state_name[a]) + (sidx(c) + 1 + nP)*nS with nP the number of MODEL parameters (the initial-value block follows ALL parameter blocks)',
                   z3.Select(r.arr, a + c * num_s) == six(a) + (sidx(c) + 1 + nP) * nS)
         vc.canary('canary: reachable', z3.BoolVal(False))
